@@ -160,7 +160,7 @@ class Variable:
         em = self._env.expression_manager
         return em.And(em.Or(self, *other), em.Not(em.And(self, *other)))
 
-    def __rxor__(self, other):
+    def __rxor__(self, *other):
         em = self._env.expression_manager
         return em.And(em.Or(*other, self), em.Not(em.And(*other, self)))
 
